@@ -15,17 +15,17 @@ CHECKS = {
             "DESIGN.md section 3 C07"),
     "C01": ("exploration",
             "Hypothesis-generated analytic velocity fields, metrics and time steps; differential of Tracker.update against independent EF/RK2/RK4 references (one step, 1e-9 cell) + observed order of convergence vs a 64x finer reference",
-            "The real Tracker is driven with a plug-in analytic forcing (steady and time-dependent fields, dx != dy, dt 1 s..1 day, displacements up to 0.95 cell) and its one-step result compared with the scheme's prescription incl. the fractional times requested; trajectories at n, 2n, 4n steps must show order >= k-0.5; the analytic helpers get_velocity1/2/4 get the same two oracles.",
-            "Uniform metric per case via a plug-in grid (the stock ROMS grid returns dx for both directions); RK2 may be midpoint or Heun; order check is one-sided and only judged above a 1e-10 noise floor.",
+            "The real Tracker is driven with a plug-in analytic forcing (steady and time-dependent fields, dx != dy, dt 1 s..1 day, displacements up to 0.95 cell) and its one-step result compared with the scheme's prescription incl. the fractional times requested; trajectories at n, 2n, 4n steps must show order >= k-0.5; the analytic helpers get_velocity1/2/4 get the same two oracles. Part 'stock' drives Tracker + the stock ROMS Forcing + the stock ROMS Grid from generated files (fields linear in x, y, t between two frames 1-4 steps apart, metric varying by cell, subgrids, forward and reversed) and applies the same one-step identity.",
+            "Uniform metric per case via a plug-in grid (the stock ROMS grid returns dx for both directions; part 'stock' takes dx of the start cell from the generated file); RK2 may be midpoint or Heun; order check is one-sided and only judged above a 1e-10 noise floor.",
             "DESIGN.md section 3 C01"),
     "C02": ("exploration",
             "Hypothesis-generated synthetic ROMS files and positions; differential against an independent C-grid interpolator + convexity, linear-exactness and subgrid-vs-full-grid metamorphic relations",
-            "Synthetic grid/forcing files (sizes, N incl. 1, both transforms, random stretching, bathymetries, masks with garbage on land faces, f8/f4/packed storage, legal subgrids incl. negative spellings) are read by the real Grid and Forcing; velocity and scalar forcing at 24-48 positions (uniform, edges, corners, +-1 ulp, rim; depths on levels, above the surface, below the bottom) are compared with the reference, with the node range, with the closed form for linear fields, and between subgrid and full grid.",
+            "Synthetic grid/forcing files (sizes, N incl. 1, both transforms, random stretching, bathymetries, masks with garbage on land faces, f8/f4/packed storage, legal subgrids incl. negative spellings) are read by the real Grid and Forcing; velocity and scalar forcing at 24-48 positions (uniform, edges, corners, +-1 ulp, rim; depths on levels, above the surface, below the bottom) are compared with the reference, with the node range, with the closed form for linear fields, and between subgrid and full grid; the sampled frame is the first or (after five clock/forcing updates) the second, which may live in a file of its own with its own storage and packing parameters.",
             "At exactly half-way positions either neighbouring cell is accepted as the particle's own cell; tolerance 1e-12 (f8) / 8*2^-23 (f4, packed).",
             "DESIGN.md section 3 C02"),
     "C03": ("exploration",
             "Hypothesis-generated frame/file layouts; per-step differential against an independent 'lerp between bracketing frames' reference at static probes",
-            "Frame layouts (gaps 1..12 steps incl. all-equal-to-dt, irregular), every kind of partition into files, start offsets, run lengths, both directions, 0-2 scalar fields, f4/f8 are generated; Forcing is driven step by step exactly as Model.update orders the calls, and velocity (also 0.5 and 1.0 step ahead) and scalars are compared with the reference after every step. Exploration: finds layout-dependent hand-over errors, proves nothing beyond the cases run.",
+            "Frame layouts (gaps 1..12 steps incl. all-equal-to-dt, irregular), every kind of partition into files, start offsets, run lengths, both directions, 0-2 scalar fields, f4/f8 or a storage per file (float or packed with per-file scale_factor/add_offset) are generated; Forcing is driven step by step exactly as Model.update orders the calls, and velocity (also 0.5 and 1.0 step ahead) and scalars are compared with the reference after every step. Exploration: finds layout-dependent hand-over errors, proves nothing beyond the cases run.",
             "Reference interpolator in vlib/roms.py written from the property text; tolerance (maxgap+4)*4*eps; reversed runs accept either bracketing frame for scalars between frame steps.",
             "DESIGN.md section 3 C03"),
     "C04": ("exploration",
@@ -35,12 +35,12 @@ CHECKS = {
             "DESIGN.md section 3 C04"),
     "C05": ("exploration",
             "exhaustive enumeration of operation sequences up to a bound + Hypothesis-generated longer sequences against a list-of-records model; pid laws on output records of generated end-to-end runs",
-            "All sequences up to length 5 (quick) / 7 (thorough) over a 10-operation alphabet on ladim.state.State are compared with a reference model after every operation (complete within that bound); longer parametrised sequences are generated; generated end-to-end runs are read back and every record checked for strictly increasing pid and pid[k] >= k.",
+            "All sequences up to length 5 (quick) / 7 (thorough) over an 11-operation alphabet on ladim.state.State are compared with a reference model after every operation (complete within that bound); longer parametrised sequences (incl. kills by integer 0/1 array or list and assignments of arrays of another dtype) are generated; generated end-to-end runs are read back and every record checked for strictly increasing pid and pid[k] >= k.",
             "Assigned arrays respect State's size contract (same length); the model is the reading of the property text in checks/c05.py.",
             "DESIGN.md section 3 C05"),
     "C06": ("exploration",
             "Hypothesis-generated end-to-end histories; round-trip oracle: state snapshot taken by a recording output plug-in at write time vs file read back by the documented recipe",
-            "Generated simulations (multi-file forcing, release tables incl. continuous, scripted kills, lifetimes, out-of-grid flow, time-typed and other particle variables, sparse/dense, numrec, reference times, f4/f8) are run through ladim.main; every record of every file is compared with the snapshot taken when it was written, the count/time/particle-variable structure is checked, dense files must be filled exactly where a pid is not alive.",
+            "Generated simulations (multi-file forcing, release tables incl. continuous, scripted kills, lifetimes, out-of-grid flow, time-typed and other particle variables, sparse/dense, numrec, reference times, f4/f8) are run through ladim.main; every record of every file is compared with the snapshot taken when it was written, the count/time/particle-variable structure is checked, dense files must be filled exactly where a pid is not alive. Part 'warm' applies the same comparison to a run warm-started from a drawn file boundary of a split run; a state variable may be stored packed (integer with scale_factor/add_offset).",
             "The snapshot is taken in a subclass of the stock Output immediately before delegating to it; netCDF4 is trusted for reading.",
             "DESIGN.md section 3 C06"),
     "C16": ("exploration",
@@ -50,7 +50,7 @@ CHECKS = {
             "DESIGN.md section 3 C16"),
     "C08": ("fault_enumeration",
             "Hypothesis-generated scenarios; every file boundary of the split run enumerated as a crash/restart point; differential uninterrupted vs restarted run, record by record",
-            "Generated simulations (continuous/discrete release, ageing IBM with lifetime, scripted kills, flow out of the grid, scalar forcing copied to the state, EF/RK2/RK4, particle variables, durations that are / are not multiples of the period) are run split with numrec 1..4; each completed file is used for a warm start configured as the documentation describes, and every later file of the restarted run is compared with the uninterrupted one (times, pid sets, all instance variables, particle variables, file names). Restart points are enumerated completely per scenario; scenarios are sampled.",
+            "Generated simulations (continuous/discrete release, ageing IBM with lifetime, scripted kills, flow out of the grid, scalar forcing copied to the state, EF/RK2/RK4, particle variables, a state variable optionally stored packed in the restart file, durations that are / are not multiples of the period) are run split with numrec 1..4; each completed file is used for a warm start configured as the documentation describes, and every later file of the restarted run is compared with the uninterrupted one (times, pid sets, all instance variables, particle variables, file names). Restart points are enumerated completely per scenario; scenarios are sampled.",
             "Diffusion off; f8 forcing and output; tolerance 1e-9; a restarted run may end with one extra record (or an empty/extra file) at the stop time, which is not compared; 'active' is not output and hence not restartable, so no deactivation is scripted.",
             "DESIGN.md section 3 C08"),
     "C09": ("exploration",
@@ -60,7 +60,7 @@ CHECKS = {
             "DESIGN.md section 3 C09"),
     "C10": ("exploration",
             "Hypothesis-generated reversed simulations; metamorphic relation: reversed run == forward run on the time-mirrored, sign-flipped data, record by record; clock oracle S - k*dt",
-            "Each generated time-reversed simulation (several forcing files, irregular frame gaps incl. 1 step, several release times, discrete/continuous, EF/RK2/RK4, scripted kills, scalar forcing) is paired with a forward simulation whose frames are negated and mirrored in time and whose release times are mirrored; pids, positions and state must agree in every record, the reversed run's record times must read S - k*period*dt and each particle must first appear in the record of its stated release time.",
+            "Each generated time-reversed simulation (several forcing files, irregular frame gaps incl. 1 step, several release times, discrete/continuous, EF/RK2/RK4, scripted kills, scalar forcing; in a third of the cases forcing frames that fall between model steps) is paired with a forward simulation whose frames are negated and mirrored in time and whose release times are mirrored; pids, positions and state must agree in every record, the reversed run's record times must read S - k*period*dt and each particle must first appear in the record of its stated release time.",
             "f8 forcing/output; tolerance 1e-9 (the two runs interpolate in time from opposite ends).",
             "DESIGN.md section 3 C10"),
     "C11": ("exploration",
@@ -70,13 +70,13 @@ CHECKS = {
             "DESIGN.md section 3 C11"),
     "C14": ("exploration",
             "Hypothesis-generated base scenario + one generated variant (drop/add/permute rows, kill others, whole-step time shift, repeat); metamorphic relation: per-particle trajectories bit-identical up to renumbering",
-            "Base scenarios have depth- and position-dependent currents over variable bathymetry, land, scripted deaths by tag followed by output steps, lifetimes, late releases, scalar forcing, an ageing IBM, both layouts and split files; every release row carries a unique tag so that trajectories are matched after renumbering; all variables of every record must be bit-identical (f8).",
+            "Base scenarios have depth- and position-dependent currents over variable bathymetry, land, scripted deaths by tag followed by output steps, lifetimes, late releases, scalar forcing, an ageing IBM, both layouts and split files; a third of the cases are coastal (release next to land, onshore flow faster than a cell per step, particles switched off or killed early that linger in the state); every release row carries a unique tag so that trajectories are matched after renumbering; all variables of every record must be bit-identical (f8).",
             "mult = 1 for every row (unique tags); diffusion off.",
             "DESIGN.md section 3 C14"),
     "C15": ("exploration",
             "Hypothesis-generated bathymetries, depths and vertical forcing against the validity predicate 0 <= Z' <= h(start cell); exact reflected value for advection-only cases",
-            "The real Tracker on a plug-in grid with generated bathymetry (ratios up to 5000), start depths incl. exactly 0 and h, vertical diffusion and/or advection within the property's premise, all horizontal schemes with flow into other cells, 1-4 steps.",
-            "Premise enforced with a 6.5-sigma margin on the random part; only particles starting inside [0, h] are judged.",
+            "The real Tracker on a plug-in grid with generated bathymetry (ratios up to 5000), start depths incl. exactly 0 and h, vertical diffusion and/or advection within the property's premise, all horizontal schemes with flow into other cells, 1-4 steps; part 'stock' repeats it on the stock ROMS Grid built from a generated file (random / eta-sloping / xi-sloping bathymetry, subgrids with i0 != j0) with the reference depth read from the generated bathymetry.",
+            "Premise enforced with a 6.5-sigma margin on the random part; only particles starting inside [0, h] are judged; a particle exactly on a cell edge may be given either neighbouring cell.",
             "DESIGN.md section 3 C15"),
     "C17": ("exploration",
             "fuzzing-style instrumentation: generated scenario spaces re-run with NUMBA_BOUNDSCHECK=1 plus a Python index monitor around every compiled kernel call",
@@ -85,12 +85,12 @@ CHECKS = {
             "DESIGN.md section 3 C17"),
     "C18": ("exploration",
             "Hypothesis-generated abstract simulations rendered in several spellings; differential between the output files of the YAML-v2, TOML-v2, YAML-v1 and defaulted-section runs",
-            "Abstract simulations inside the v1 vocabulary (forcing file or wildcard, optional grid file, subgrid, extra forcing, discrete/continuous release, extra release columns as particle variables, IBM module with parameters and variables, scheme, period spellings, reference time) are rendered as YAML v2, TOML v2 (native or string date-times), YAML v1 and a second v2 file with optional sections omitted vs present-but-empty and the grid section omitted / module-only; all four runs must complete and their output files agree in dimensions, variables, attributes and every value.",
+            "Abstract simulations inside the v1 vocabulary (forcing file or wildcard, optional grid file, subgrid, extra forcing, discrete/continuous release, extra release columns as particle variables, IBM module with parameters and variables, scheme, period spellings, reference time) are rendered as YAML v2, TOML v2 (native or string date-times), YAML v1 and a second v2 file with optional sections omitted vs present-but-empty and the grid section omitted / present without a module key (also completely empty) / with the module spelled out; in a third of the cases Grid and Forcing come from a user file given by path whose metric differs from the stock grid's; all four runs must complete and their output files agree in dimensions, variables, attributes and every value.",
             "forcing.module is always spelled; empty sections are written as {}.",
             "DESIGN.md section 3 C18"),
     "C19": ("exploration",
             "Hypothesis-generated run lengths, periods, plug-in spellings and cold/warm starts; call-log grammar + state snapshots from recording plug-ins in every module slot",
-            "A recording module (thin subclasses of the stock Grid, Forcing, ParticleReleaser, Tracker, Output and a scripted IBM) is installed in any subset of the six slots under a generated spelling (absolute path with/without .py, relative path, bare name in the working directory with a same-named decoy on sys.path, module name on sys.path); the update calls must follow release, forcing, output, tracker, ibm once per step (plus the output-less catch-up step of a warm start), snapshots taken inside the calls must be consistent with that order, kills take effect from the next record, close is called once per module, and the decoy never runs.",
+            "A recording module (thin subclasses of the stock Grid, Forcing, ParticleReleaser, Tracker, Output and a scripted IBM) is installed in any subset of the six slots under a generated spelling (absolute path with/without .py, relative path, bare name in the working directory with a same-named decoy on sys.path, module name on sys.path); the update calls must follow release, forcing, output, tracker, ibm once per step (plus the output-less catch-up step of a warm start), snapshots taken inside the calls must be consistent with that order, kills take effect from the next record, close is called once per module, the decoy never runs, and - plug-in files of different slots may share one file name in different directories - every logged call comes from the file configured for its slot.",
             "Recording classes log and delegate to the stock implementation.",
             "DESIGN.md section 3 C19"),
     "C20": ("fault_enumeration",
